@@ -16,6 +16,7 @@ import LinVerif.Lemmas.C14Delta
 import LinVerif.Lemmas.C14Facts
 import LinVerif.Lemmas.C14Stream
 import LinVerif.Lemmas.C14Pool
+import LinVerif.Lemmas.C14BufAlias
 
 namespace LinVerif.Props.C14
 open LinVerif LinVerif.Bits LinVerif.Varint
@@ -1103,5 +1104,80 @@ theorem fixedoffset_calls_expected :
     Generated.C14.fixedOffsetEncoderResetFields = ["max", "values[:0]"] ∧
     Generated.C14.fixedOffsetDecoderUnmarshalFields = ["offsetsBlock[:0]", "width", "size", "width", "size",
       "offsetsBlock"] := ⟨rfl, rfl, rfl⟩
+
+/-! ## 10. caller-owned buffers: "the encoded values" are the bytes the slice held when `Write` was called
+
+An encoder that is handed a `[]byte` (snappy chunk writer `Write(row)`, `stream` writer `PutBytes`/`Write`,
+`TSDStreamWriter.WriteField(id, data)`) must have taken its copy when the call returns: callers marshal every row
+into one reused scratch buffer and hand `encoder.Bytes()` views of pooled encoders to `WriteField` before they
+reset the encoder. Model: `Model/BufAlias.lean` (caller memory + what the writer holds); which of the two
+semantics a method has is read off the regenerated sinks of its slice parameter. -/
+
+section CallerBuffers
+open BufAlias
+
+/-- **A copying writer is lossless for every caller history**: any interleaving of caller writes into its own
+buffers (`fill`), `Write(buf[:n])` and chunk cuts, any number of chunks through the one writer, any reuse of the
+buffers — every chunk is the concatenation of the rows as they were when `Write` was called. -/
+theorem writer_copy_ignores_later_caller_writes (ops : List Op) (mem : List (Nat × List Nat)) :
+    run .copies { mem := mem } ops = spec mem [] ops :=
+  run_copies_eq_spec ops { mem := mem } (by intro p hp; simp at hp)
+
+/-- the same from any writer state reached by copying writes (open chunk included) -/
+theorem writer_copy_ignores_later_caller_writes_from (ops : List Op) (w : World) (h : AllLit w.staged) :
+    run .copies w ops = spec w.mem w.plain ops := run_copies_eq_spec ops w h
+
+/-- a retaining writer (`EncodeBuffer`) is lossless exactly under the discipline its documentation demands:
+no caller write into a handed-over buffer before the chunk is cut -/
+theorem retaining_writer_needs_caller_discipline (ops : List Op) (mem : List (Nat × List Nat))
+    (h : disciplined [] ops = true) : run .retains { mem := mem } ops = spec mem [] ops :=
+  run_retains_eq_spec_of_disciplined ops { mem := mem } [] (by intro p hp; simp at hp) h
+
+/-- TIE: in the source as it is now, `snappyWriter.Write` hands the row to a copying callee only -/
+theorem snappy_write_does_not_retain : snappyWriteSem = some .copies := by decide
+
+/-- TIE: `stream.writer.PutBytes` / `Write`, `tsdStreamWriter.WriteField` and the INPUT of
+`snappyReader.Uncompress` are copied before the call returns -/
+theorem stream_writers_do_not_retain :
+    streamPutBytesSem = some .copies ∧ streamWriteSem = some .copies ∧ tsdWriteFieldSem = some .copies ∧
+    snappyUncompressInputSem = some .copies := by decide
+
+/-- TIE (documented exception): `FixedOffsetEncoder.FromValues` BORROWS the caller's slice (`e.values = values`)
+until `MarshalBinary`/`Write`; `Add` copies values. The round-trip theorems about `FromValues` therefore speak
+about the slice content at `MarshalBinary` time; the harness never touches the slice in between. -/
+theorem fixedoffset_from_values_borrows : fixedOffsetFromValuesSem = some .retains := by decide
+
+/-- **Snappy chunks under caller-buffer reuse**: with the semantics the source has now and the library contract
+(`ExternalCodec`), for every caller history every chunk decodes to the rows as written. -/
+theorem snappy_chunks_lossless_under_buffer_reuse (c : ExternalCodec (List Nat)) (sem : Sem)
+    (hs : snappyWriteSem = some sem) (ops : List Op) (mem : List (Nat × List Nat)) (chunks : List (List Nat))
+    (h : run sem { mem := mem } ops = some chunks) :
+    spec mem [] ops = some chunks ∧ ∀ p ∈ chunks, c.decode (c.encode p) = some p := by
+  have : sem = .copies := by
+    have := snappy_write_does_not_retain; rw [hs] at this; exact Option.some.inj this
+  subst this
+  rw [writer_copy_ignores_later_caller_writes] at h
+  exact ⟨h, fun p _ => c.roundtrip p⟩
+
+/-- non-vacuity: one scratch buffer reused for three rows of two chunks, poisoned after every `Write` -/
+example : run .copies {} [.fill 0 [1, 2, 3], .write 0 3, .fill 0 [9, 9, 9], .fill 0 [4, 5], .write 0 2, .fill 0 [9, 9],
+      .cut, .fill 0 [7], .write 0 3, .cut] = some [[1, 2, 3, 4, 5], [7, 9, 9]] := by decide
+
+/-- an unknown callee has no semantics: the ties above fail by name instead of defaulting -/
+example : sinksSem ["writer.SomethingNew"] = none ∧ sinksSem [] = none ∧
+    sinksSem ["writer.EncodeBuffer"] = some .retains := by decide
+
+namespace Neg
+
+/-- a writer that keeps the caller's slice loses rows as soon as the caller reuses its scratch buffer:
+rows `[1]`, `[2]` written from one buffer come back as `[2, 2]` -/
+theorem retaining_writer_loses_rows :
+    run .retains {} [.fill 0 [1], .write 0 1, .fill 0 [2], .write 0 1, .cut] = some [[2, 2]] ∧
+    spec [] [] [.fill 0 [1], .write 0 1, .fill 0 [2], .write 0 1, .cut] = some [[1, 2]] ∧
+    disciplined [] [.fill 0 [1], .write 0 1, .fill 0 [2], .write 0 1, .cut] = false := by decide
+
+end Neg
+
+end CallerBuffers
 
 end LinVerif.Props.C14
